@@ -267,10 +267,51 @@ def _id_case(repo, it, S, spec):
     return n, out
 
 
+_WCG = {}
+
+
+def _runner_cg(repo, fn):
+    def work(spec):
+        if _WCG.get("repo") is not repo:
+            from ..interp import with_cgranges
+            _WCG["it"] = with_cgranges(gene_interp(repo, max_steps=10 ** 12))
+            _WCG["repo"] = repo
+        it = _WCG["it"]
+        try:
+            n, outs = fn(repo, it, strands(it), spec)
+            return n, [(k + " (interval-index path)", m, q) for k, m, q in outs]
+        except Uninterpretable as ex:
+            return 0, [("uninterpretable", str(ex), f"{AC}._optimized_query_by_position")]
+    return work
+
+
+def rx_index_path(ctx):
+    """the optional interval-index implementation of the position query (`_optimized_query_by_position`, taken only when the
+    cgranges package is installed - not in this environment, so no test runs it) answers exactly like the coordinate oracle:
+    the RK ranges evaluated with HAS_CGRANGES = True through a native model of the index"""
+    specs = []
+    cuts = [0, 999, 1000, 1001, 4000, 4999, 5000, 5999, 6000, 131000, 131071, 131072, 131073, 131199, 131200, 139999, 140000, 201000, 262144, 262199, 262200, 300000]
+    for i, a in enumerate(cuts):
+        for b in cuts[i:]:
+            if ctx.thorough or (i + cuts.index(b)) % 3 == 0 or a == 0 or b == 300000:
+                specs.append(("big", (0, 300000), a, b))
+    scuts = [0, 3, 4, 10, 12, 18, 20, 22, 24, 30, 31, 36, 40, len(GENOME)]
+    for i, a in enumerate(scuts):
+        for b in scuts[i:]:
+            if ctx.thorough or (i + scuts.index(b)) % 2 == 0:
+                specs.append(("small", None, a, b))
+                specs.append(("chunk", None, a, b))
+    ctx.r.floor("C09.RX", "position queries through the interval index", len(specs), 80)
+    from ..par import pmap
+    results = pmap(_runner_cg(ctx.repo, _pos_case), specs)
+    _report(ctx, "C09.RX", results, [(f"{AC}._optimized_query_by_position", "membership / bounds / members / sequences as the coordinate oracle says"),
+                                     (f"{AC}._build_position_interval_tree", "every child indexed under its chromosome span")])
+
+
 def rk_position(ctx):
     specs = []
-    cuts = [0, 999, 1000, 1001, 4000, 5000, 6000, 6001, 130000, 131000, 131071, 131072, 131073, 131200, 140000, 199000,
-            201000, 262000, 262144, 262200, 300000]
+    cuts = [0, 999, 1000, 1001, 4000, 4999, 5000, 5999, 6000, 6001, 130000, 131000, 131071, 131072, 131073, 131199, 131200, 139999, 140000, 199000,
+            201000, 262000, 262144, 262199, 262200, 300000]
     for bounds in ((0, 300000), (1000, 262200)):
         cs = [c for c in cuts if True]
         for i, a in enumerate(cs):
@@ -341,6 +382,7 @@ def r7_union_interface(ctx):
 
 RULES = [
     ("C09.RK", rk_position),
+    ("C09.RX", rx_index_path),
     ("C09.RI", rk_ids),
     ("C09.R7", r7_union_interface),
 ]
